@@ -1,4 +1,6 @@
 (* name -> extracted entry point *)
 let table : (string * (Model.sx -> Model.sx)) list = [
   "c20", Model.run_c20;
+  "schema", Model.run_schema;
+  "f64", Model.run_f64;
 ]
